@@ -145,8 +145,7 @@ variable (o : Oracles)
 @[simp] theorem cmpOp_ge_int (a b : Int) : cmpOp o ">=" (.int a) (.int b) = decide (b ≤ a) := by
   simp [cmpOp, Val.cmpLe]
 @[simp] theorem cmpOp_lt_int (a b : Int) : cmpOp o "<" (.int a) (.int b) = decide (a < b) := by
-  simp [cmpOp, Val.cmpLe]
-  by_cases h : a < b <;> simp [h] <;> omega
+  simp [cmpOp, Val.cmpLt]
 @[simp] theorem cmpOp_num (fn : String) (s : Bytes) (l : String) :
     cmpOp o fn (.num s) (.numLit l) = (o.isNum s && o.numCmp fn s l) := by
   simp [cmpOp]
